@@ -4,7 +4,9 @@ import GoNeat.Driver.Operators
 import GoNeat.Driver.Population
 import GoNeat.Driver.Activations
 import GoNeat.Driver.Solver
+import GoNeat.Driver.Experiment
+import GoNeat.Driver.Stats
 
 namespace GoNeat.Driver
-def allOps : List (String × Handler) := geneticsOps ++ operatorOps ++ populationOps ++ activationsOps ++ solverOps
+def allOps : List (String × Handler) := geneticsOps ++ operatorOps ++ populationOps ++ activationsOps ++ solverOps ++ experimentOps ++ statsOps
 end GoNeat.Driver
